@@ -152,6 +152,27 @@ def run_history(rng, nfiles, steps):
     return failures
 
 
+def parallel_batch(rng):
+    """the unordered parallel hashing path: several files above the large-file threshold, more than one worker, and a first
+    file that takes far longer than the others (results arrive out of submission order)"""
+    with tempfile.TemporaryDirectory(dir="/var/tmp") as tmp:
+        paths = []
+        for i in range(rng.randint(3, 6)):
+            p = os.path.join(tmp, f"big{i}")
+            open(p, "wb").write(os.urandom(6_000_000 if i == 0 else rng.randint(200, 2000)))
+            paths.append(p)
+        infos = {p: FS.info(p) for p in paths}
+        alg = rng.choice(ALGS)
+        res = _get_hashes(list(paths), FS, alg, infos, state=None, jobs=4, large_file_threshold=100)
+        for p in paths:
+            _, hi, _ = res[p]
+            want = expect(alg, open(p, "rb").read())
+            if hi.name != alg or hi.value != want:
+                return [{"history": [("parallel batch", alg, len(paths))],
+                         "problem": f"_get_hashes(jobs=4, large files)[{os.path.basename(p)}] -> {hi.value}, current bytes hash to {want}"}]
+    return []
+
+
 def main():
     n = int(sys.argv[1]) if len(sys.argv) > 1 else 40
     rng = random.Random(int(os.environ.get("VERIF_SEED", "1")))
@@ -159,11 +180,16 @@ def main():
     for i in range(n):
         big = i % 10 == 9  # every tenth history crosses the 999-parameter SQL boundary
         nfiles = 1100 if big else rng.randint(1, 6)
-        fs_ = run_history(rng, nfiles, 6 if big else rng.randint(4, 14))
+        try:
+            fs_ = run_history(rng, nfiles, 6 if big else rng.randint(4, 14))
+        except Exception as e:  # noqa: BLE001  (a lookup raised where the statement promises an answer)
+            fs_ = [{"history": [("files", nfiles)], "problem": f"raised {type(e).__name__}: {str(e)[:120]}"}]
         evals += 1
         failures.extend(fs_)
+        if i % 8 == 0:
+            failures.extend(parallel_batch(rng))
     print(json.dumps({"evaluations": evals, "distinct_nontrivial": evals, "n_failures": len(failures), "failures": failures[:4],
-                      "bound": f"{n} seeded histories of <= 14 steps over <= 6 files (every tenth: 1100 files, 6 steps), 3 algorithms, 8 kinds of file mutation"}))
+                      "bound": f"{n} seeded histories of <= 14 steps over <= 6 files (every tenth: 1100 files, 6 steps), 3 algorithms, 8 kinds of file mutation; every eighth: a parallel batch of large files (jobs=4)"}))
 
 
 if __name__ == "__main__":
